@@ -3,6 +3,9 @@
 package main
 
 import (
+	"sort"
+	"encoding/json"
+	"context"
 	"encoding/base64"
 	"fmt"
 	"strings"
@@ -34,6 +37,10 @@ type vfC04Case struct {
 
 func vfC04(w *vfWorld) {
 	t := w.tape
+	if t.Prob("c04.concurrent-profile", 120) {
+		vfC04Concurrent(w)
+		return
+	}
 	cs := &vfC04Case{Accepted: map[string]int{}, Rejected: map[string]int{}}
 	w.sample = cs
 	cfg := vfDefaultCfg()
@@ -345,6 +352,45 @@ func vfC04(w *vfWorld) {
 			build(m.Claims, &m.Sign)
 		}
 	}
+	// a bearer token is judged at EVERY presentation: one that was served while valid is refused once it has expired,
+	// seconds after its expiry as well as days later
+	type servedTok struct {
+		hdr, target string
+		exp         time.Time
+	}
+	var servedToks []servedTok
+	expOf := func(tok string) (time.Time, bool) {
+		parts := strings.Split(tok, ".")
+		if len(parts) != 3 {
+			return time.Time{}, false
+		}
+		raw, err := base64.RawURLEncoding.DecodeString(parts[1])
+		if err != nil {
+			return time.Time{}, false
+		}
+		var c struct {
+			Exp float64 `json:"exp"`
+		}
+		if json.Unmarshal(raw, &c) != nil || c.Exp == 0 {
+			return time.Time{}, false
+		}
+		return time.Unix(int64(c.Exp), 0), true
+	}
+	again := func(b *vfBrowser, st servedTok, label string) {
+		if d := time.Until(st.exp) + 2*time.Second; d > 0 {
+			w.Sleep(d)
+		}
+		r := b.Do(rep, &vfReq{Method: "GET", Target: st.target, NoJar: true, Headers: [][2]string{{"Authorization", st.hdr}}})
+		cs.Rejected["bearer-after-expiry"]++
+		if served(r) {
+			w.violate("C04", "bearer-served-after-expiry", label, "a bearer token that was served while valid was served again %v after its expiry (status %d)", time.Since(st.exp).Round(time.Second), r.Status)
+		}
+	}
+	shortExp := func(c map[string]interface{}, tk *vfC04Token) {
+		if tk.Exp == "future" && t.Prob("c04.bearer-short-exp", 250) {
+			c["exp"] = time.Now().Add(20 * time.Second).Unix()
+		}
+	}
 	nb := 0
 	ntok := 12 + t.Choice("c04.ntok", 12)
 	for i := 0; i < ntok; i++ {
@@ -509,6 +555,7 @@ func vfC04(w *vfWorld) {
 				case "object":
 					c["email_verified"] = map[string]interface{}{"value": false}
 				}
+				shortExp(c, tk)
 			})
 			w.logf("c04", "bearer2 token: iss=%s key=%s aud=%s exp=%s verified=%s => accept=%v either=%v", x.iss, x.key, x.aud, x.exp, x.verified, tk.Accept, tk.Either)
 			r := b.Do(rep, &vfReq{Method: "GET", Target: "/api/data2", NoJar: true, Headers: [][2]string{{"Authorization", carry(tok)}}})
@@ -517,18 +564,158 @@ func vfC04(w *vfWorld) {
 				w.nontriv = true
 				tk.Missing = "groups" // judged like the bearer path: token-borne e-mail only
 				checkIdentity(r, "bearer", id, tk)
+				if e, ok := expOf(tok); ok {
+					st := servedTok{hdr: carry(tok), target: "/api/data2", exp: e}
+					if time.Until(e) < time.Minute {
+						again(b, st, "extra-issuer/seconds")
+					} else {
+						servedToks = append(servedToks, st)
+					}
+				}
 			}
 		case "bearer":
 			cur = tk
-			tok := idp.MintBearer("alice", func(c map[string]interface{}, so *vfSignOpt) { build(c, so) })
+			tok := idp.MintBearer("alice", func(c map[string]interface{}, so *vfSignOpt) { build(c, so); shortExp(c, tk) })
 			id := curIdent
 			r := b.Do(rep, &vfReq{Method: "GET", Target: "/api/data", NoJar: true, Headers: [][2]string{{"Authorization", carry(tok)}}})
 			judge(path, tk, served(r), fmt.Sprintf("(status %d)", r.Status))
 			if served(r) {
 				w.nontriv = true
 				checkIdentity(r, path, id, tk)
+				if e, ok := expOf(tok); ok {
+					st := servedTok{hdr: carry(tok), target: "/api/data", exp: e}
+					if time.Until(e) < time.Minute {
+						again(b, st, "main-issuer/seconds")
+					} else {
+						servedToks = append(servedToks, st)
+					}
+				}
+			}
+		}
+	}
+	if len(servedToks) > 0 && t.Prob("c04.bearer-expiry-history", 500) {
+		sort.Slice(servedToks, func(i, j int) bool { return servedToks[i].exp.Before(servedToks[j].exp) })
+		b := w.NewBrowser("LATE", "192.0.2.8:4711")
+		for i, st := range servedToks {
+			if i < 3 {
+				again(b, st, "long-after")
 			}
 		}
 	}
 	w.distKey = fmt.Sprintf("%s/%s/%s/%s/%v/%v", cs.Keys, cs.AudClaim, cs.ExtraAud, cs.EmailClaim, cs.AllowUnverified, cs.ExtraIssuer)
+}
+
+// vfC04Concurrent: several users whose ID tokens lack some of the configured claims log in (and later refresh) at the same
+// time, every identity-provider call interleaved by the tape: the claims a token lacks come from the profile endpoint as
+// answered for THAT user's access token - never from an answer given to somebody else's lookup that happened to be in flight.
+func vfC04Concurrent(w *vfWorld) {
+	t := w.tape
+	cs := &vfC04Case{Accepted: map[string]int{}, Rejected: map[string]int{}}
+	w.sample = cs
+	cfg := vfDefaultCfg()
+	cfg.Store = vfPick(t, "c04c.store", []string{"cookie", "redis"})
+	cs.Store, cs.Keys = cfg.Store, "concurrent-profile-lookups"
+	cfg.CookieRefresh, cfg.CookieExpire = 10*time.Minute, 48*time.Hour
+	cfg.EmailDomains = []string{"*"}
+	cfg.Extra = append(cfg.Extra, "--pass-access-token=true", "--set-xauthrequest=true")
+	idp := w.StartIdP()
+	idp.IDTokenTTL, idp.AccessTTL = 30*time.Hour, 30*time.Hour
+	pc := []string{"email", "groups", "preferred_username"}
+	mask := 1 + t.Choice("c04c.lacks", 7)
+	var lacks []string
+	for i, c := range pc {
+		if mask&(1<<i) != 0 {
+			lacks = append(lacks, c)
+		}
+	}
+	idp.Mint = func(m *vfMintCtx) {
+		if m.Claims != nil {
+			for _, c := range lacks {
+				delete(m.Claims, c)
+			}
+		}
+	}
+	// (the claim extractor calls the profile endpoint with a context of its own: attribute those calls by their access token)
+	idp.TaskFor = func(c *vfIdpCall) string {
+		idp.mu.Lock()
+		defer idp.mu.Unlock()
+		if g := idp.atGrant[c.Bearer]; g != nil && c.Endpoint == "userinfo" {
+			return "T-" + g.User
+		}
+		return ""
+	}
+	reps := w.Standard(cfg, 1+t.Choice("c04c.replicas", 2))
+	pp := cfg.ProxyPrefix
+	names := []string{"alice", "bob", "carol"}[:2+t.Choice("c04c.users", 2)]
+	type client struct {
+		u  *vfUser
+		b  *vfBrowser
+		lg *vfLogin
+		r  *vfResp
+	}
+	var cl []*client
+	for i, n := range names {
+		c := &client{u: idp.users[n], b: w.NewBrowser("B-"+n, fmt.Sprintf("192.0.2.%d:4000", 30+i))}
+		c.lg, _ = c.b.StartLogin(reps[t.Choice("c04c.rep", len(reps))], pp+"/start?rd=%2Fapp", n)
+		if c.lg == nil {
+			w.fatalf("c04: start of %s's login failed", n)
+		}
+		cl = append(cl, c)
+	}
+	phase := func(label string, mk func(c *client, rep *vfReplica, ctx context.Context) *vfResp) {
+		var tasks []*vfTask
+		for _, c := range cl {
+			c := c
+			rep := reps[t.Choice("c04c.rep", len(reps))]
+			tasks = append(tasks, &vfTask{id: "T-" + c.u.Name, rep: rep, fn: func(ctx context.Context) { c.r = mk(c, rep, ctx) }})
+		}
+		sr := w.sched.Run(tasks, vfSchedOpts{Sleeps: []time.Duration{10 * time.Millisecond}, MaxSteps: 3000, MaxSim: 60 * time.Second})
+		if sr.Truncated {
+			w.sched.Drain(tasks)
+			w.truncated = true
+			w.violate("C04", "liveness", "concurrent-profile", "%s of %d users did not finish", label, len(cl))
+		}
+	}
+	judge := func(label string) {
+		for _, c := range cl {
+			r := c.b.GET(reps[t.Choice("c04c.rep", len(reps))], "/app/whoami")
+			if len(r.UpHits) != 1 {
+				w.violate("C04", "honest-login-refused", "concurrent-profile", "%s: %s's request was not served (status %d)", label, c.u.Name, r.Status)
+				continue
+			}
+			h := r.UpHits[0]
+			cs.Accepted["concurrent"]++
+			w.nontriv = true
+			if got := h.Get("X-Forwarded-Email"); got != c.u.Email {
+				w.violate("C04", "identity-of-another-user", "email", "%s: the session of %s (ID token lacks %v) carries the e-mail address %q - the profile answer of another user's lookup", label, c.u.Name, lacks, got)
+			}
+			own, _ := c.u.Groups.([]string)
+			if got := h.Get("X-Forwarded-Groups"); got != strings.Join(own, ",") {
+				w.violate("C04", "identity-of-another-user", "groups", "%s: the session of %s (ID token lacks %v) carries the groups %q, its own are %v", label, c.u.Name, lacks, got, c.u.Groups)
+			}
+			if got := h.Get("X-Forwarded-Preferred-Username"); got != c.u.PreferredUsername {
+				w.violate("C04", "identity-of-another-user", "preferred_username", "%s: the session of %s (ID token lacks %v) carries the user name %q, its own is %q", label, c.u.Name, lacks, got, c.u.PreferredUsername)
+			}
+			if got := h.Get("X-Forwarded-User"); got != c.u.Sub {
+				w.violate("C04", "identity-of-another-user", "user", "%s: the session of %s carries the subject %q", label, c.u.Name, got)
+			}
+		}
+	}
+	phase("login", func(c *client, rep *vfReplica, ctx context.Context) *vfResp {
+		return c.b.Do(rep, &vfReq{Method: "GET", Target: c.lg.CallbackTarget(pp), Ctx: ctx})
+	})
+	for _, c := range cl {
+		if c.r == nil || c.r.Status != 302 {
+			w.violate("C04", "honest-login-refused", "concurrent-profile", "callback of %s answered %v", c.u.Name, c.r)
+			return
+		}
+	}
+	judge("after concurrent logins")
+	// the refresh builds the session anew from the refresh answer's ID token and, again, the profile endpoint
+	w.Sleep(cfg.CookieRefresh + 30*time.Second)
+	phase("refresh", func(c *client, rep *vfReplica, ctx context.Context) *vfResp {
+		return c.b.Do(rep, &vfReq{Method: "GET", Target: "/app/stale", Ctx: ctx})
+	})
+	judge("after concurrent refreshes")
+	w.distKey = fmt.Sprintf("concurrent/%v/%d/%s", lacks, len(cl), cfg.Store)
 }
